@@ -119,43 +119,45 @@ def run(ctx):
   p21, p11, p12 = dict(I=2, TO=1), dict(I=1, TO=1), dict(I=1, TO=2)
   DUP = {"3": 1}          # MCKeepalive!DpidDup: connection 3 is a reconnect of the switch behind connection 1
   # (cfg, module, adapter, params, cap in quick, cap in thorough)
-  exs = [("EX_T1.cfg", "MCTimers", AD_T, dict(direct="mix"), 6000, None),
-         ("EX_T2e.cfg", "MCTimers", AD_T, dict(direct="mix"), 6000, None),
+  exs = [("EX_T1.cfg", "MCTimers", AD_T, dict(direct="mix"), 4500, None),
+         ("EX_T2e.cfg", "MCTimers", AD_T, dict(direct="mix"), 4500, None),
          ("EX_K1.cfg", "MCKeepalive", AD_K, p21, None, None),
-         ("EX_K2c.cfg", "MCKeepalive", AD_K, p11, 5000, None),
-         ("EX_K2d.cfg", "MCKeepalive", AD_K, dict(p11, dup=DUP), 3000, None)]
+         ("EX_K2c.cfg", "MCKeepalive", AD_K, p11, 4500, None),
+         ("EX_K2d.cfg", "MCKeepalive", AD_K, dict(p11, dup=DUP), 2500, None)]
   if not quick:
-    exs = [(c, m, ad, prm, cq, 20000 if c in ("EX_K2c.cfg", "EX_K2d.cfg") else None) for c, m, ad, prm, cq, _ in exs]
+    exs = [(c, m, ad, prm, cq, 20000 if c == "EX_K2c.cfg" else None) for c, m, ad, prm, cq, _ in exs]
     exs += [("EX_T2q.cfg", "MCTimers", AD_T, dict(direct="st"), None, 20000),
             ("EX_T2.cfg", "MCTimers", AD_T, dict(direct="direct"), None, 20000),
             ("EX_K2q.cfg", "MCKeepalive", AD_K, p21, None, 20000),
             ("EX_K2.cfg", "MCKeepalive", AD_K, p21, None, 20000),
+            ("EX_K2dx.cfg", "MCKeepalive", AD_K, dict(p11, dup=DUP), None, 15000),
             ("EX_K3u.cfg", "MCKeepalive", AD_K, p11, None, 25000)]
-  n = 300 if quick else 1500
+  n = 250 if quick else 1500
   sims = [("SIM_T.cfg", "MCTimers", AD_T, dict(direct="mix"), n, 40, 0),
           ("SIM_K.cfg", "MCKeepalive", AD_K, dict(p21, dup=DUP), n, 45, 1),
           ("SIM_Kb.cfg", "MCKeepalive", AD_K, dict(p12, dup=DUP), n, 45, 2)]
   if not quick:
     sims += [("SIM_T.cfg", "MCTimers", AD_T, dict(direct="direct"), n, 40, 3)]
-  jobs = [mc_job(c, m, workers=4 if quick else 6) for c, m, _ in mcs] + [ex_job(c, m) for c, m, _, _, _, _ in exs] + \
-         [sim_job(ctx, c, m, num, d, off) for c, m, _, _, num, d, off in sims]
+  # exports first (single-threaded, longest), then simulations, then the model runs: the replays below start as
+  # soon as their export is there, while the model runs still use the other cores
+  import concurrent.futures
+  pool = concurrent.futures.ThreadPoolExecutor(13 if quick else 7)
   t0 = _time.time()
-  res = tlc.run_many(jobs, parallel=8 if quick else 6)
-  ctx.notes["tlc_stage_s"] = round(_time.time() - t0, 1)
-  k = 0
-  for c, m, acts in mcs:
-    r = res[k]
-    k += 1
-    if r.violated:
-      raise tlc.TLCError("spec violates its own property %s in %s:\n%s" % (r.violated, c, r.error_trace[:3000]))
-    tlc.require_coverage(r, acts, c)
-    ctx.add_model("%s %s" % (m[2:], c), r, properties=PROPS_T if m == "MCTimers" else PROPS_K)
+  sub = lambda job: pool.submit(lambda j=job: tlc.run(j.pop("spec_dir"), j.pop("module"), j.pop("cfg"), **j))   # noqa
+  f_ex = [sub(ex_job(c, m)) for c, m, _, _, _, _ in exs]
+  f_sim = [sub(sim_job(ctx, c, m, num, d, off)) for c, m, _, _, num, d, off in sims]
+  f_mc = [sub(mc_job(c, m, workers=4 if quick else 6)) for c, m, _ in mcs]
+  try:
+    _stages(ctx, quick, mcs, exs, sims, f_mc, f_ex, f_sim, pool, t0)
+  finally:
+    pool.shutdown(wait=True, cancel_futures=True)
 
+
+def _stages(ctx, quick, mcs, exs, sims, f_mc, f_ex, f_sim, pool, t0):
   # ---- 2. spec -> code: every transition of the abstract state graphs (sampled where capped)
   done_nc = set()
-  for c, m, ad, prm, capq, capt in exs:
-    r = res[k]
-    k += 1
+  for (c, m, ad, prm, capq, capt), f in zip(exs, f_ex):
+    r = f.result()
     behs = prep(r.tagged("T"))
     behs = replay_set(ctx, c, ad, behs, prm, capq if quick else capt)
     if ad not in done_nc:
@@ -169,16 +171,15 @@ def run(ctx):
   ctx.notes["replay_negative_controls"] = "corrupted expectation reported for both adapters"
 
   # ---- 3. deep random behaviours
-  for c, m, ad, prm, num, d, off in sims:
-    r = res[k]
-    k += 1
+  for (c, m, ad, prm, num, d, off), f in zip(sims, f_sim):
+    r = f.result()
     behs = prep(r.tagged("H"))
     if len(behs) < num // 2:
       raise tlc.TLCError("simulation %s exported only %d behaviours" % (c, len(behs)))
     replay_set(ctx, "%s seed+%d" % (c, off), ad, behs, prm, None, chunk=20)
 
   # ---- 4. code -> spec: random drivers on the real code, traces validated by TLC
-  ntr = 150 if quick else 1500
+  ntr = 120 if quick else 1500
   sets = [("timers", "props.X04:drive_t", "TraceTimers", "TraceT.cfg", None),
           ("keepalive", "props.X04:drive_k", "TraceKeepalive", "TraceK.cfg", (2, 1)),
           ("keepalive", "props.X04:drive_k", "TraceKeepalive", "TraceKb.cfg", (1, 2))]
@@ -197,11 +198,9 @@ def run(ctx):
     else:
       raise core.Machinery("no trace with a firing timer to corrupt (%s)" % name)
     work.append((name, mod, cfg, items, traces, bad))
-  import concurrent.futures
-  with concurrent.futures.ThreadPoolExecutor(3) as ex:
-    futs = [ex.submit(tracecheck.validate, SPEC, mod, cfg, traces + [bad], tag="X04")
-            for name, mod, cfg, items, traces, bad in work]
-    outs = [f.result() for f in futs]
+  futs = [pool.submit(tracecheck.validate, SPEC, mod, cfg, traces + [bad], tag="X04")
+          for name, mod, cfg, items, traces, bad in work]
+  outs = [f.result() for f in futs]
   for (name, mod, cfg, items, traces, bad), (r, rej) in zip(work, outs):
     ctx.add_model("%s %s (validation of %d implementation traces)" % (mod, cfg, len(traces)), r)
     if len(traces) not in [t for t, _ in rej]:
@@ -220,6 +219,14 @@ def run(ctx):
         traces=len(traces), events=sum(len(t) for t in traces), rejected=len(rej) - 1,
         fires=sum(1 for t in traces for e in t if e["a"] == "Run" and e["obs"]["fired"]),
         negative_control_rejected=True)
+  # ---- 1'. the model runs: the properties on the specs themselves, with the vacuity guard
+  for (c, m, acts), f in zip(mcs, f_mc):
+    r = f.result()
+    if r.violated:
+      raise tlc.TLCError("spec violates its own property %s in %s:\n%s" % (r.violated, c, r.error_trace[:3000]))
+    tlc.require_coverage(r, acts, c)
+    ctx.add_model("%s %s" % (m[2:], c), r, properties=PROPS_T if m == "MCTimers" else PROPS_K)
+  ctx.notes["tlc_all_done_s"] = round(_time.time() - t0, 1)
   ctx.exhaustive = True
 
 
